@@ -71,7 +71,9 @@ def programs(draw, kinds=KINDS, force_with=True):
         body = [{"t": "with", "async": draw(st.booleans()), "items": [draw(_item())], "layout": "one", "body": body}]
     conds = draw(st.lists(st.booleans(), min_size=16, max_size=16))
     sched = draw(st.lists(st.sampled_from(["send"] * 5 + ["throw:E1", "throw:E2"]), min_size=8, max_size=8))
-    extarg = draw(st.sampled_from([False] * 7 + [True]))
+    # code before the body that pushes it beyond the offsets one byte / two bytes / three bytes (of an EXTENDED_ARG, of an
+    # exception-table varint) can express: 1 ~1200 instructions, 2 ~9600, 3 ~18000
+    extarg = draw(st.sampled_from([0] * 26 + [1, 1, 1, 2, 2, 3]))
     # what else lives in the frame's fast-locals area besides plain locals (it decides where the value stack starts):
     # 1 a comprehension whose loop variable is captured (inlined into the frame on 3.12), 2 an argument that is
     # closed over, 3 both, 4 a local that becomes a cell because a nested def captures it
@@ -219,6 +221,7 @@ def features(prog):
     if prog.get("closure"):
         f.add("frame_layout.closure_%d" % prog["closure"])
     if prog.get("extarg"):
+        f.add("code_size.extarg_%d" % int(prog["extarg"]))
         f.add("extended_arg")
     f.add("kind." + prog["kind"])
     return f
